@@ -315,20 +315,18 @@ def rel_C06(suite):
         if ev_i != ev_m:
             res['strict'].append(mk_replay(c, i, rule, text, m, im, 'extern call sequence'))
         if 'probe' in c['tags']:
-            # every probe sits at the start of a memoized rule body or of a rule only reachable through one:
-            # at most one call per (rule entry offset); the tracer tells us which rule the probe ran in
-            stack = []
+            # body evaluations of memoized rules, read off the tracer: an entry `S:R@p` that is not immediately
+            # answered by `I:Cache hit` is a body evaluation of R at p; the probes (extern calls that consume
+            # nothing) make the same count visible to user code and are compared in the strict relation above
+            evs = im[3].split(';')
             seen = collections.Counter()
-            for e in im[3].split(';'):
+            for k, e in enumerate(evs):
                 if e.startswith('S:'):
-                    stack.append(e[2:])
-                elif e.startswith('O:') or e.startswith('E:'):
-                    if stack:
-                        stack.pop()
-                elif e.startswith('X:hooks::ext_probe@') and stack:
-                    seen[(stack[-1], e)] += 1
+                    nxt = evs[k + 1] if k + 1 < len(evs) else ''
+                    if not nxt.startswith('I:Cache hit'):
+                        seen[e[2:]] += 1
             memo_rules = set(re.findall(r'@memoize\n(?:@\w+\n)*(\w+) =', c['text']))
-            over = [(k, v) for k, v in seen.items() if v > 1 and k[0].split('@')[0] in memo_rules]
+            over = [(k, v) for k, v in seen.items() if v > 1 and k.split('@')[0] in memo_rules]
             n_fail = im[3].count('E:')
             res['nontrivial'].add((c['id'], im[0], len(seen), 'Cache hit' in im[3]))
             if 'Cache hit' in im[3]:
@@ -356,7 +354,36 @@ def rel_C07(suite):
                    lambda c, m, im: (c['id'], im[0], im[3].count('Starting new left recursive loop')), 'left recursion result', prop)
 
 
+# ------------------------------------------------------------------ C20
+def rel_C20(suite):
+    res = dict(evaluations=0, nontrivial=set(), samples=[], strict=[], prop=[], distribution=collections.Counter())
+    for l in suite.get('hist', []):
+        p = l.split('\t')
+        if p[0] == '#H':
+            n, seq, thr, nd = int(p[1]), int(p[2]), int(p[3]), int(p[4])
+            res['evaluations'] += seq + thr
+            res['distribution']['first runs'] += n
+            res['distribution']['sequential re-executions (shuffled, then reversed)'] += seq
+            res['distribution']['re-executions from 16 threads'] += thr
+            res['nontrivial'].add(('batch', n, seq, thr))
+        elif p[0] == '#HD':
+            c = suite['case_by_id'].get(p[1])
+            idx = int(p[2])
+            first = suite['impl'].get((p[1], idx))
+            rule, text = (c['inputs'][idx] if c else ('?', '?'))
+            res['prop'].append(dict(kind='pegdiff', what='re-execution (%s) returned a different result than the first parse of the same input' % p[3],
+                                    case=p[1], tags=c['tags'] if c else [], grammar=c['text'] if c else '', sexp=c['sexp'] if c else '', uctx=c['uctx'] if c else False,
+                                    rule=rule, input=text, input_hex=text.encode().hex(), model=suite['model'].get((p[1], idx)), impl=first, rerun=p[4]))
+    # the first runs themselves must be the model's answers (purity = function of grammar and input)
+    for c, i, rule, text, m, im, flags in iter_lines(suite, ALL):
+        res['nontrivial'].add((c['id'], im[0]))
+        if (m[0], m[1], m[2]) != (im[0], im[1], im[2]):
+            res['strict'].append(mk_replay(c, i, rule, text, m, im, 'result differs from the function of (grammar, input) the model computes'))
+    res['samples'] = [dict(summary=l) for l in suite.get('hist', [])[:3]] or [dict(note='no history lines')]
+    return res
+
+
 RELATIONS = {
     'C01': rel_C01, 'C02': rel_C02, 'C04': rel_C04, 'C05': rel_C05, 'C06': rel_C06, 'C07': rel_C07, 'C08': rel_C08,
-    'C09': rel_C09, 'C10': rel_C10, 'C13': rel_C13, 'C14': rel_C14, 'C19': rel_C19,
+    'C09': rel_C09, 'C10': rel_C10, 'C13': rel_C13, 'C14': rel_C14, 'C19': rel_C19, 'C20': rel_C20,
 }
